@@ -251,36 +251,54 @@ def r2(ctx, rep):
 def r3(ctx, rep):
     m = ctx.m
     R3 = rep.rule('C08.R3', 'the finished/not-finished guards; Model.finish() of every logic folded end to end (completion, frame condition, identity)')
-    cd = m.clsdef(ClassRef(MODELS, 'BaseModel'))
+    # state guards folded: every reader refuses before finish(), every writer after it -- with IllegalStateError, before touching anything.
+    # The mock model has no state beyond `finished`: whatever a method touches before its guard shows up as another error.
+    class IllegalStateError(Exception):
+        pass
     n = 0
-    for st in cd.body:
-        if isinstance(st, ast.FunctionDef) and (st.name.startswith('set_') or st.name.startswith('value_of') or st.name in ('read_branch', '_read_node', '_complete_frames')):
-            n += 1
-            b = astq.stmts(st)
-            first = astq.u(b[0]) if b else ''
-            want = 'self._check_finished()' if st.name.startswith('value_of') else 'self._check_not_finished()'
-            ok = first == want
-            rep.instance(R3, ok=ok, nontrivial=st.name)
-            if not ok:
-                rep.finding(R3, f'C08.R3/guard/{st.name}', m.loc(MODELS, st), f'BaseModel.{st.name}', f'does not start with {want}')
-    rep.floor('C08.R3', 'guarded methods', n, 14)
-    # overrides in logic modules keep the guard
+
+    def guard_case(cls, name, finished):
+        mdl = Obj('model', __srcclass__=(m, cls), finished=finished, _finished=finished)
+        itg = Interp(dict(IllegalStateError=IllegalStateError, Emsg=Obj('Emsg', IllegalState=lambda *a: IllegalStateError(*a))), where=f'{cls.qualname}.{name}')
+        fn_, owner = m.method(cls, name)
+        if not isinstance(fn_, FuncRef):
+            return None, None
+        a = fn_.node.args
+        npos = len(a.posonlyargs) + len(a.args) - 1
+        try:
+            if any(isinstance(x, (ast.Yield, ast.YieldFrom)) for x in ast.walk(fn_.node)):
+                itg.generate(fn_.node, [mdl] + [Obj(f'arg{i}') for i in range(npos)])
+            else:
+                itg.call(fn_.node, [mdl] + [Obj(f'arg{i}') for i in range(npos)])
+            return fn_, 'returns normally'
+        except IllegalStateError:
+            return fn_, None
+        except Raised as e:
+            return fn_, f'raises {e.text}'
+        except Exception as e:      # noqa: BLE001
+            return fn_, f'raises {type(e).__name__}: {e}'
+    base = ClassRef(MODELS, 'BaseModel')
+    cd = m.clsdef(base)
+    guarded = [st.name for st in cd.body if isinstance(st, ast.FunctionDef) and
+               (st.name.startswith('set_') or st.name.startswith('value_of') or st.name in ('read_branch', '_read_node', '_complete_frames', 'finish'))]
+    targets = [(base, nm) for nm in guarded]
     for lg in ctx.lgs:
-        for name in ('value_of_quantified', 'value_of_operated', 'finish'):
-            f, owner = m.method(lg.modelcls, name)
-            if isinstance(f, FuncRef) and owner.module != MODELS:
-                b = astq.stmts(f.node)
-                want = 'self._check_not_finished()' if name == 'finish' else 'self._check_finished()'
-                ok = b and astq.u(b[0]) == want
-                rep.instance(R3, ok=bool(ok), nontrivial=(owner.short, name))
-                if not ok:
-                    rep.finding(R3, f'C08.R3/guard/{owner.short}.{name}', m.floc(f), f'{owner.short}.{name}', f'override does not start with {want}')
-    for chk, flag in (('_check_finished', 'if not self.finished'), ('_check_not_finished', 'if self.finished')):
-        fn = m.func(MODELS, f'BaseModel.{chk}')
-        ok = flag in astq.u(fn) and 'raise IllegalStateError' in astq.u(fn)
-        rep.instance(R3, ok=ok, nontrivial=chk)
-        if not ok:
-            rep.finding(R3, f'C08.R3/{chk}', m.loc(MODELS, fn), f'BaseModel.{chk}', 'no longer raises IllegalStateError in the wrong state')
+        for nm in ('value_of_quantified', 'value_of_operated', 'finish'):
+            f, owner = m.method(lg.modelcls, nm)
+            if isinstance(f, FuncRef) and owner.module != MODELS and (owner, nm) not in targets:
+                targets.append((owner, nm))
+    for cls, nm in targets:
+        wrong = not nm.startswith('value_of')      # readers need a finished model, writers an unfinished one
+        fn_, problem = guard_case(cls, nm, finished=wrong)
+        if fn_ is None:
+            continue
+        n += 1
+        rep.instance(R3, ok=problem is None, nontrivial=(cls.qualname, nm))
+        rep.consult(m.floc(fn_) + f' {cls.qualname}.{nm}')
+        if problem is not None:
+            rep.finding(R3, f'C08.R3/guard/{cls.short}.{nm}', m.floc(fn_), f'{cls.short}.{nm}',
+                        f'called on a model that is {"already" if wrong else "not yet"} finished it {problem}; expected IllegalStateError before anything else')
+    rep.floor('C08.R3', 'guarded methods', n, 14)
     cpl_finish_fold(ctx, rep, R3)
     n = common.finish_folds(ctx, rep, R3, 'C08.R3')
     rep.floor('C08.R3', 'finish pre-states', n, 500)
